@@ -11,6 +11,9 @@ declare -A CHECKS=(
  [c19a-m1]="C19" [c19a-m2]="C15 C19" [c19a-m3]="C19"
  [c01d]="C01" [c01e]="C01" [c11d]="C11" [c11e-m1]="C11" [c11e-m2]="C11 C13" [c11e-m3]="C11"
  [c12c]="C12" [c12d]="C12" [c13b-m1]="C12 C13" [c13b]="C13" [c13c]="C13" [c14b]="C14" [c14c-m1]="C14" [c14c-m2]="C11 C14" [c14c-m3]="C11 C14"
+ [r5a-m1]="C12" [r5a-m2]="C12" [r5a-m3]="C15" [r5a-m4]="C15" [r5b-m1]="C11 C04" [r5b-m2]="C14" [r5b-m3]="C05" [r5b-m4]="C04"
+ [r5c-m1]="C01 C11" [r5c-m2]="C11" [r5c-m3]="C01" [r5c-m4]="C01 C11" [r5d]="C11" [r5e-m1]="C13" [r5e-m2]="C13" [r5e-m3]="C19" [r5e-m4]="C19"
+ [r5f-m1]="C12" [r5f-m2]="C12" [r5f-m3]="C14" [r5f-m4]="C12"
  [c15c]="C15" [c15d-m1]="C15" [c15d-m2]="C19 C15" [c15d-m3]="C15" [c19b]="C19" [c19c]="C19" [c05b]="C05" [c04c]="C04"
 )
 for d in seeded/*/; do
